@@ -21,7 +21,7 @@ META = common.meta(
 
 def tasks(tier, seed):
     out = []
-    n = 40 if tier == 'quick' else 280
+    n = 40 if tier == 'quick' else common.thorough(280)
     for k in range(n):
         out.append(('vt.props.c19', 't3_case', {'seed': seed, 'k': k, 'backend': 'T3', 'reversible': k % 2 == 1,
                                                 'reweight': (k // 2) % 2 == 1, 'sig': 'rev' if k % 2 else 'nonrev'}))
